@@ -79,6 +79,14 @@ func (s Seekable) Seek(off int64, whence int) (int64, error) {
 	return int64(s.Pos), nil
 }
 
+// PipeLike wraps a Reader and adds an io.Seeker whose Seek always fails without
+// moving, the way an *os.File does when it is a pipe, a socket or a terminal
+// (ESPIPE): the type has the method, the object cannot seek.
+type PipeLike struct{ *Reader }
+
+// Seek implements io.Seeker (and fails).
+func (PipeLike) Seek(int64, int) (int64, error) { return 0, fmt.Errorf("seek: illegal seek") }
+
 // Chunking names one segmentation.
 type Chunking struct {
 	Name  string
